@@ -1,4 +1,174 @@
-import AsmjitVerif.Model.Frame
+/-
+C07 — prolog/epilog preserve callee-saved state and keep frame areas disjoint.
+
+Part 1 (`finalize_layout`): for EVERY frame handed to `FuncFrame::finalize` (any masks, sizes, flags; the
+side conditions are: power-of-two alignments, no 32-bit wrap) the reported areas
+  call area | local area | extra-register save area | DA slot | push/pop save area | return address
+are ordered (hence pairwise disjoint), aligned as promised, and the stack-argument offset is the frame size
+plus the return address.
+-/
+import AsmjitVerif.Lemmas.FrameArith
 namespace AsmjitVerif.Frame
-theorem c07_placeholder : alignUp 5 8 = 8 := by decide
+
+/-- side conditions on what the user / the register allocator puts into a frame before `finalize` -/
+structure LayoutIn (g : Frame) : Prop where
+  kA : ∃ k, k ≤ 7 ∧ g.finalAlign = 2 ^ k
+  kV : ∃ j, j ≤ 7 ∧ g.srSize 1 = 2 ^ j
+  sizes : g.callSize + g.localSize ≤ 2 ^ 30
+  w : 0 < g.srSize 0 ∧ g.srSize 0 ≤ 8
+
+/-- what `finalize` promises about the numbers it reports (`l` = the finalized frame) -/
+structure LayoutOut (g l : Frame) : Prop where
+  callFits : g.callSize ≤ l.localOff
+  localAligned : l.localOff % g.finalAlign = 0
+  localFits : l.localOff + g.localSize ≤ l.xOff
+  vecAligned : l.alignedVecSR = true → g.alignedVecC = true → l.xOff % g.srSize 1 = 0
+  daSlot : l.daOff ≠ invalidOff → l.xOff + l.xSize ≤ l.daOff ∧ l.daOff + g.srSize 0 ≤ l.ppOff
+  noDaSlot : l.daOff = invalidOff → l.xOff + l.xSize ≤ l.ppOff
+  total : l.ppOff + l.ppSize = l.finalSize
+  aligned : (l.xOff + l.xSize ≠ 0 ∨ l.daOff ≠ invalidOff ∨ g.hasFuncCalls = true ∨ g.retAddrSize = 0) →
+              (l.finalSize + g.retAddrSize) % g.finalAlign = 0
+  noPad : ¬ (l.xOff + l.xSize ≠ 0 ∨ l.daOff ≠ invalidOff ∨ g.hasFuncCalls = true ∨ g.retAddrSize = 0) →
+              l.finalSize = l.ppSize
+  adjPlain : g.hasDA = false → l.stackAdj = l.ppOff ∧ l.saOffSp = l.finalSize + g.retAddrSize
+  adjDA : g.hasDA = true → l.stackAdj % g.finalAlign = 0 ∧ l.ppOff ≤ l.stackAdj ∧ l.stackAdj < l.ppOff + g.finalAlign
+  small : l.finalSize + g.retAddrSize < 2 ^ 31 ∧ l.stackAdj < 2 ^ 31
+
+theorem finalize_layout (g : Frame) (h : LayoutIn g) : LayoutOut g g.layout := by
+  obtain ⟨k, hk, hA⟩ := h.kA
+  obtain ⟨j, hj, hV⟩ := h.kV
+  have hsz := h.sizes
+  obtain ⟨hw0, hw8⟩ := h.w
+  have hpk : 2 ^ k ≤ 128 := by
+    have : 2 ^ k ≤ 2 ^ 7 := Nat.pow_le_pow_right (by omega) hk
+    omega
+  have hpj : 2 ^ j ≤ 128 := by
+    have : 2 ^ j ≤ 2 ^ 7 := Nat.pow_le_pow_right (by omega) hj
+    omega
+  have hpk0 : 0 < 2 ^ k := Nat.two_pow_pos k
+  have hpj0 : 0 < 2 ^ j := Nat.two_pow_pos j
+  have hpp : g.ppSizeC < 2 ^ 16 := by unfold Frame.ppSizeC u16; exact Nat.mod_lt _ (by omega)
+  have hxs : g.xSizeC < 2 ^ 16 := by unfold Frame.xSizeC u16; exact Nat.mod_lt _ (by omega)
+  have hras : g.retAddrSize ≤ 8 := by unfold Frame.retAddrSize; split <;> omega
+  -- local offset
+  have hLO : g.localOffC = alignUp g.callSize (2 ^ k) := by
+    unfold Frame.localOffC u32; rw [hA, Nat.zero_add, Nat.mod_eq_of_lt (by omega)]
+  obtain ⟨lo1, lo2, lo3⟩ := alignUp_spec g.callSize k (by omega) (by omega)
+  rw [← hLO] at lo1 lo2 lo3
+  -- extra save offset
+  have hXO : g.xOffC = if g.alignedVecC then alignUp (g.localOffC + g.localSize) (2 ^ j) else g.localOffC + g.localSize := by
+    unfold Frame.xOffC u32; rw [hV, Nat.mod_eq_of_lt (by omega)]
+  obtain ⟨xo1, xo2, xo3⟩ := alignUp_spec (g.localOffC + g.localSize) j (by omega) (by omega)
+  have hx1 : g.localOffC + g.localSize ≤ g.xOffC := by rw [hXO]; split <;> omega
+  have hx2 : g.xOffC < g.localOffC + g.localSize + 2 ^ j := by rw [hXO]; split <;> omega
+  have hx3 : g.alignedVecC = true → g.xOffC % 2 ^ j = 0 := by intro hv; rw [hXO, if_pos hv]; exact xo1
+  -- DA slot
+  have hDA : g.daOffC = if g.daSlotC then g.xOffC + g.xSizeC else invalidOff := by
+    unfold Frame.daOffC u32; rw [Nat.mod_eq_of_lt (by omega)]
+  have hVD : g.vDaC = if g.daSlotC then g.xOffC + g.xSizeC + g.srSize 0 else g.xOffC + g.xSizeC := by
+    unfold Frame.vDaC Frame.regSize u32
+    rw [Nat.mod_eq_of_lt (by omega : g.xOffC + g.xSizeC < 2 ^ 32)]
+    split
+    · rw [Nat.mod_eq_of_lt (by omega)]
+    · rfl
+  have hvd : g.vDaC < 2 ^ 30 + 2 ^ 17 := by rw [hVD]; split <;> omega
+  -- alignment pad
+  obtain ⟨pd1, pd2⟩ := alignUpDiff_spec (g.vDaC + g.ppSizeC + g.retAddrSize) k (by omega) (by omega)
+  have hPO : g.ppOffC = if (g.vDaC != 0 || g.hasFuncCalls || g.retAddrSize == 0)
+      then g.vDaC + alignUpDiff (g.vDaC + g.ppSizeC + g.retAddrSize) (2 ^ k) else g.vDaC := by
+    unfold Frame.ppOffC u32; rw [hA]; dsimp only
+    rw [Nat.mod_eq_of_lt (by omega : g.vDaC + g.ppSizeC + g.retAddrSize < 2 ^ 32)]
+    split
+    · rw [Nat.mod_eq_of_lt (by omega)]
+    · rfl
+  have hpo1 : g.vDaC ≤ g.ppOffC := by rw [hPO]; split <;> omega
+  have hpo2 : g.ppOffC < g.vDaC + 2 ^ k := by rw [hPO]; split <;> omega
+  have hFS : g.finalSizeC = g.ppOffC + g.ppSizeC := by
+    unfold Frame.finalSizeC u32; rw [Nat.mod_eq_of_lt (by omega)]
+  obtain ⟨sa1, sa2, sa3⟩ := alignUp_spec g.ppOffC k (by omega) (by omega)
+  have hinv : invalidOff = 4294967295 := rfl
+  refine ⟨?_, ?_, ?_, ?_, ?_, ?_, ?_, ?_, ?_, ?_, ?_, ?_⟩ <;> simp only [Frame.layout]
+  · exact lo2
+  · rw [hA]; exact lo1
+  · exact hx1
+  · intro _ hv; rw [hV]; exact hx3 hv
+  · intro hne
+    rw [hDA] at hne ⊢
+    by_cases hd : g.daSlotC = true
+    · rw [if_pos hd] at hne ⊢
+      rw [hVD, if_pos hd] at hpo1
+      omega
+    · rw [if_neg hd] at hne; exact absurd rfl hne
+  · intro he
+    rw [hDA] at he
+    by_cases hd : g.daSlotC = true
+    · rw [if_pos hd] at he; omega
+    · rw [hVD, if_neg hd] at hpo1; exact hpo1
+  · exact hFS.symm
+  · intro hc
+    rw [hFS, hA]
+    have hcond : (g.vDaC != 0 || g.hasFuncCalls || g.retAddrSize == 0) = true := by
+      rcases hc with hc | hc | hc | hc
+      · have : g.vDaC ≠ 0 := by rw [hVD]; split <;> omega
+        simp [this]
+      · rw [hDA] at hc
+        by_cases hd : g.daSlotC = true
+        · have : g.vDaC ≠ 0 := by rw [hVD, if_pos hd]; omega
+          simp [this]
+        · rw [if_neg hd] at hc; exact absurd rfl hc
+      · simp [hc]
+      · simp [hc]
+    rw [hPO, if_pos hcond]
+    have : g.vDaC + alignUpDiff (g.vDaC + g.ppSizeC + g.retAddrSize) (2 ^ k) + g.ppSizeC + g.retAddrSize
+         = g.vDaC + g.ppSizeC + g.retAddrSize + alignUpDiff (g.vDaC + g.ppSizeC + g.retAddrSize) (2 ^ k) := by omega
+    rw [this]; exact pd1
+  · intro hc
+    have h1 : g.xOffC + g.xSizeC = 0 := by
+      apply Classical.byContradiction; intro hne; exact hc (Or.inl hne)
+    have h2 : g.daOffC = invalidOff := by
+      apply Classical.byContradiction; intro hne; exact hc (Or.inr (Or.inl hne))
+    have h3 : g.hasFuncCalls = false := by
+      cases hf : g.hasFuncCalls with
+      | false => rfl
+      | true => exact absurd (Or.inr (Or.inr (Or.inl hf))) hc
+    have h4 : g.retAddrSize ≠ 0 := fun he => hc (Or.inr (Or.inr (Or.inr he)))
+    have hd : ¬ (g.daSlotC = true) := by
+      intro hd; rw [hDA, if_pos hd] at h2; omega
+    have hv0 : g.vDaC = 0 := by rw [hVD, if_neg hd]; exact h1
+    have hcond : (g.vDaC != 0 || g.hasFuncCalls || g.retAddrSize == 0) = false := by
+      simp [hv0, h3, h4]
+    rw [hFS, hPO, hcond]
+    simp [hv0]
+  · intro hda
+    unfold Frame.stackAdjC Frame.saOffSpC
+    simp only [hda]
+    refine ⟨by simp, ?_⟩
+    unfold Frame.retAddrSize Frame.regSize u32
+    simp only [Bool.false_eq_true, if_false]
+    split
+    · simp
+    · rw [Nat.mod_eq_of_lt (by omega)]
+  · intro hda
+    unfold Frame.stackAdjC
+    simp only [hda, if_true]
+    rw [hA]
+    exact ⟨sa1, sa2, sa3⟩
+  · refine ⟨by omega, ?_⟩
+    unfold Frame.stackAdjC
+    split
+    · rw [hA]; omega
+    · omega
+
+/-- the same for `FuncFrame::finalize` as a whole (its first part only touches dirty masks and register ids) -/
+theorem finalize_layout_full (f : Frame) (h : LayoutIn f) : LayoutOut f.fin1 f.finalize :=
+  finalize_layout f.fin1 ⟨h.kA, h.kV, h.sizes, h.w⟩
+
+/-- non-vacuity: a SysV frame with locals, calls and alignment 32 satisfies the side conditions … -/
+def exFrame : Frame :=
+  (((Frame.init ((initCallConv .x64 0 false).get (by decide)) (tbl4 0xF008 0 0 0) 0).setLocalSize 100).setLocalAlign 32).setCallSize 40
+example : LayoutIn exFrame :=
+  ⟨⟨5, by decide, by decide⟩, ⟨4, by decide, by decide⟩, by decide, by decide⟩
+/-- … and the numbers are the expected ones (local area at 64, DA slot at 164, 6 pushes, aligned adjustment) -/
+example : (exFrame.finalize.localOff, exFrame.finalize.daOff, exFrame.finalize.ppSize, exFrame.finalize.stackAdj) = (64, 164, 48, 224) := by decide
+
 end AsmjitVerif.Frame
